@@ -66,8 +66,8 @@ CHECKS = {
          "DESIGN.md §4 C12"),
  "C13": ("exploration",
          "adversarial template grid + seeded byte-mutation fuzzing of every decoder in an isolated child process with a counting allocator; oracle = typed result, no panic/abort/stack overflow/hang, peak allocation proportional to input; thorough tier adds coverage-guided libFuzzer campaigns (cargo-fuzz, ASan, 64 MiB single-allocation limit) per codec, from encoder seeds and from an empty corpus",
-         "26 byte-level entry points fed declared-length bombs in every length position, nesting depth up to 10^6, every truncation cut, 1 MiB inputs, seeded mutants and random bytes; each input's outcome and peak live allocation measured in a sandboxed child; any panic, process death, 20 s silence or allocation above 1 MiB + 1024 x len is a violation with the minimised input as replay file.",
-         "1024x proportionality constant and the eintlog MAX_FRAME_LEN cap are stated assumptions; the warp-wasm host boundary functions are not yet wired in.",
+         "32 byte-level entry points (25 codecs/readers + 7 warp-wasm host boundary entry points against a freshly installed engine kernel) fed declared-length bombs in every length position, nested admissible lengths (depth x count amplification), nesting depth up to 10^6, every truncation cut, 1 MiB inputs, seeded mutants and random bytes; each input's outcome and peak live allocation measured in a sandboxed child; any panic, process death, 20 s silence or allocation above 1 MiB + 1024 x len is a violation with the minimised input as replay file.",
+         "1024x proportionality constant, the eintlog MAX_FRAME_LEN cap, the Edict decoder's documented node budget and a 32 MiB allowance for the host boundary entry points (they run a kernel, not only a decoder) are stated assumptions; the wasm-only exports are exercised through their bodies (request decoding + KernelPort method) because js_sys::Uint8Array cannot run natively.",
          "DESIGN.md §4 C13"),
  "C06": ("exploration",
          "property-based testing (proptest): construction-order/history metamorphic relations, single-mutation injectivity against an independent reachability reference, birthday-bucket collision search, three-way root differential (store / worldline+engine / columnar accumulator), WSC round trip",
